@@ -26,8 +26,6 @@ const (
 	OpConstraint = "Ƙ" // a constraint declared in a placeholder package
 	OpExported   = "Ɛ" // uninterpreted application of the Exported template function
 	OpAlias      = "ƌ" // an import alias
-	PkgToken     = "ƿkg" + TokEnd
-	SrcPkgToken  = "ʂrc" + TokEnd
 )
 
 const (
@@ -53,12 +51,15 @@ type TPShape struct {
 type MockShape struct {
 	TypeParams []TPShape
 	Methods    []MethodShape
+	Aliased    bool // requested as "Interface:Name"
+	DupOfFirst bool // the same interface as the first mock, requested again (under another name)
 }
 
 // Env is an abstract template.Data value.
 type Env struct {
 	Stub, SkipEnsure, WithResets bool
 	External                     bool // destination package differs from the source package
+	ExplicitSame                 bool // -pkg names the source package itself (in place)
 	SyncAliased                  bool // sync is imported under an alias
 	Mocks                        []MockShape
 }
@@ -82,6 +83,9 @@ func (e Env) String() string {
 	if e.SyncAliased {
 		fl = append(fl, "sync-aliased")
 	}
+	if e.ExplicitSame {
+		fl = append(fl, "pkg=same")
+	}
 	var ms []string
 	for _, m := range e.Mocks {
 		var meths []string
@@ -102,6 +106,12 @@ func (e Env) String() string {
 		}
 		if tp != "" {
 			tp = "[" + tp + "]"
+		}
+		if m.Aliased {
+			tp = "alias:" + tp
+		}
+		if m.DupOfFirst {
+			tp = "dup:" + tp
 		}
 		ms = append(ms, tp+"{"+strings.Join(meths, " ")+"}")
 	}
@@ -124,6 +134,7 @@ type ParamInfo struct {
 	TypeText string // full type text as moq prints it (for a variadic parameter: "[]" + element)
 	Variadic bool
 	Explicit string // for type parameters: the representative type text, "" if none
+	DeclName string // for type parameters: the name the generator's data carries for the declaration
 }
 
 // MethodInfo is the concrete description of a skeleton method, shared by the
@@ -136,6 +147,8 @@ type MethodInfo struct {
 
 // MockInfo describes a skeleton mock.
 type MockInfo struct {
+	DupOfFirst bool
+	Aliased    bool
 	MockName   string
 	IfaceName  string
 	TypeParams []ParamInfo
@@ -165,7 +178,7 @@ func tok(op string, idx ...int) string {
 
 // BuildModel assigns tokens to an environment.
 func BuildModel(e Env) *Model {
-	m := &Model{Env: e, Dep2Alias: OpAlias + "2" + TokEnd, SyncQual: "sync", SrcQual: SrcPkgToken}
+	m := &Model{Env: e, Dep2Alias: OpAlias + "2" + TokEnd, SyncQual: "sync", SrcQual: SrcPkgName}
 	if e.SyncAliased {
 		m.SyncQual = OpAlias + "sync" + TokEnd
 	}
@@ -185,9 +198,30 @@ func BuildModel(e Env) *Model {
 		return m.Dep2Alias + "." + n
 	}
 	for i, ms := range e.Mocks {
-		mi := MockInfo{MockName: tok(OpMock, i), IfaceName: tok(OpIface, i)}
+		if ms.DupOfFirst && i > 0 {
+			ms.TypeParams, ms.Methods = e.Mocks[0].TypeParams, e.Mocks[0].Methods
+		}
+		mi := MockInfo{IfaceName: tok(OpIface, i), Aliased: ms.Aliased, DupOfFirst: ms.DupOfFirst && i > 0}
+		if mi.DupOfFirst {
+			mi.IfaceName = m.Mocks[0].IfaceName
+		}
+		mi.MockName = mi.IfaceName + "Mock"
+		if ms.Aliased {
+			mi.MockName = tok(OpMock, i)
+		}
+		ti := i // index used in the interface's own tokens
+		if mi.DupOfFirst {
+			// the very same interface: same type parameters, methods and type texts
+			mi.TypeParams = append([]ParamInfo{}, m.Mocks[0].TypeParams...)
+			for _, me := range m.Mocks[0].Methods {
+				mi.Methods = append(mi.Methods, MethodInfo{Name: me.Name, Params: append([]ParamInfo{}, me.Params...), Results: append([]ParamInfo{}, me.Results...)})
+			}
+			m.Mocks = append(m.Mocks, mi)
+			continue
+		}
 		for k, tp := range ms.TypeParams {
-			p := ParamInfo{Name: tok(OpTypeParam, i, k), TypeText: "any"}
+			p := ParamInfo{Name: tok(OpTypeParam, ti, k), TypeText: "any"}
+			p.DeclName = p.Name
 			if tp.Explicit {
 				p.TypeText = "interface{ ~int | ~string }"
 				p.Explicit = "int"
@@ -195,9 +229,9 @@ func BuildModel(e Env) *Model {
 			mi.TypeParams = append(mi.TypeParams, p)
 		}
 		for j, sh := range ms.Methods {
-			me := MethodInfo{Name: tok(OpMethod, i, j)}
+			me := MethodInfo{Name: tok(OpMethod, ti, j)}
 			for k := 0; k < sh.NParams; k++ {
-				p := ParamInfo{Name: tok(OpParam, i, j, k)}
+				p := ParamInfo{Name: tok(OpParam, ti, j, k)}
 				switch {
 				case sh.Variadic && k == sh.NParams-1:
 					p.Variadic = true
@@ -210,7 +244,7 @@ func BuildModel(e Env) *Model {
 				me.Params = append(me.Params, p)
 			}
 			for k := 0; k < sh.NResults; k++ {
-				p := ParamInfo{Name: tok(OpResult, i, j, k)}
+				p := ParamInfo{Name: tok(OpResult, ti, j, k)}
 				if k == 0 && len(mi.TypeParams) > 0 {
 					p.TypeText = "[]" + mi.TypeParams[len(mi.TypeParams)-1].Name
 				} else {
@@ -364,7 +398,7 @@ func BuildData(prog *load.Program, m *Model) (*interp.Struct, error) {
 	}
 	srcQual := interp.Lit("")
 	if e.External {
-		srcQual = interp.Concat(interp.Tok(m.SrcQual), interp.Lit("."))
+		srcQual = interp.Lit(m.SrcQual + ".")
 		if !e.SkipEnsure {
 			if err := addPkg(SrcPath, m.SrcQual, ""); err != nil {
 				return nil, err
@@ -430,7 +464,7 @@ func BuildData(prog *load.Program, m *Model) (*interp.Struct, error) {
 		mocks.Elems = append(mocks.Elems, s)
 	}
 	return mkStruct(dt.Data, "data", map[string]interp.Value{
-		"PkgName": interp.Tok(PkgToken), "SrcPkgQualifier": srcQual, "Imports": imports, "Mocks": mocks,
+		"PkgName": interp.Lit(m.PkgName()), "SrcPkgQualifier": srcQual, "Imports": imports, "Mocks": mocks,
 		"StubImpl": e.Stub, "SkipEnsure": e.SkipEnsure, "WithResets": e.WithResets,
 	})
 }
@@ -497,4 +531,12 @@ func ownerID(v interp.Value) string {
 		return v.ID
 	}
 	return ""
+}
+
+// PkgName is the package clause the output must carry.
+func (m *Model) PkgName() string {
+	if m.Env.External {
+		return DestPkgName
+	}
+	return SrcPkgName
 }
